@@ -113,17 +113,8 @@ static RunResult c16_exec(const Plan &p) {
             std::string ver = ver_name(s.pc.version);
             std::string mode = std::string(p.get("resume") ? "resumed" : "full") + (p.get("cauth") ? "+cauth" : "");
             std::string fam = suite_name((uint16_t) p.get("suite"));
-            for (auto &op : p.ops) { if (op.k == "hreplay") { s.schedule_replay(op.a, (int) op.b); } }
-            // handshake phase: run until both complete, or the liveness budget after the last fault is used up
-            for (int guard = 0; guard < 2000; guard++) {
-                bool both = s.ep(0).complete && s.ep(1).complete;
-                if (both || s.event_cap_hit) { break; }
-                if (s.ep(0).is_dead() || s.ep(1).is_dead()) { break; }
-                if (s.now > s.last_fault_time + HEAL_BUDGET_MS) { break; }
-                if (s.q.empty()) { break; }
-                s.run_until(s.now + 2000, MAX_EVENTS);
-            }
-            bool both = s.ep(0).complete && s.ep(1).complete;
+            size_t before[2] = { 0, 0 };
+            bool both = s.run_plan(true, before);
             bool any_fault = s.counters["fault.drop"] + s.counters["fault.dup"] + s.counters["fault.delay"] + s.counters["fault.replay"] > 0;
             res.count(both ? "hs.completed" : "hs.not_completed");
             res.count("hs.timer_fires", s.timer[0].fires + s.timer[1].fires);
@@ -140,29 +131,7 @@ static RunResult c16_exec(const Plan &p) {
                 if (s.fires_after_heal[0] > MAX_FIRES_AFTER_HEAL || s.fires_after_heal[1] > MAX_FIRES_AFTER_HEAL) {
                     res.violate("no_completion_after_heal", ver + "," + fam + "," + mode + ",too_many_timer_rounds", "more than 12 timer expiries after the last fault");
                 }
-                // application phase
-                int64_t t0 = s.now + 50;
-                size_t hs_dgrams = s.emitted.size();
-                for (auto &op : p.ops) { if (op.k == "afate") { DgFate f; f.kind = (int) op.b; f.a = op.c; s.fates[(int) hs_dgrams + (int) op.a] = f; } }
-                for (auto &op : p.ops) {
-                    if (op.k == "app") { size_t cap = (size_t) (s.pmtu / 2 - 40); s.schedule_app_send(t0 + op.a, (int) (op.b & 1), 1 + (size_t) op.c % cap); }   // one record per datagram: stay well inside the PMTU
-                    else if (op.k == "areplay") {
-                        // c: 0 any datagram so far, 1 application-phase datagrams, 2 handshake-phase datagrams (incl. the Finished flights)
-                        int idx = (int) op.b;
-                        if (op.c == 2) { idx = hs_dgrams ? (int) ((uint64_t) op.b % hs_dgrams) : 0; }
-                        else if (op.c == 1) { idx = (int) hs_dgrams + (int) ((uint64_t) op.b % 8); }
-                        s.schedule_replay(t0 + op.a, idx);
-                    }
-                }
-                s.run_until(t0 + 1500 + 5000, MAX_EVENTS);   // longer than any injected delay
-                bool dead_after = s.ep(0).is_dead() || s.ep(1).is_dead();
-                // final probes: honest traffic must still flow in both directions
-                size_t before[2] = { s.ep(0).delivered.size(), s.ep(1).delivered.size() };
-                if (!dead_after) {
-                    s.faults_enabled = false;
-                    s.schedule_app_send(s.now + 10, 0, 33); s.schedule_app_send(s.now + 20, 1, 34);
-                    s.run_until(s.now + 6000, MAX_EVENTS);
-                }
+                bool dead_after = s.dead_after_app;
                 // safety: at most once, only what was sent
                 for (int dir = 0; dir < 2 && !res.violation; dir++) {
                     MxEndpoint &rcv = s.ep(dir == DIR_C2S ? 1 : 0);
